@@ -996,6 +996,39 @@ func (env *SpecEnv) callExpr(c *ast.CallExpr) (*Val, error) {
 			return mathInt(sx("+", sx("*", at(0), "256"), at(1))), nil
 		}
 		return mathInt(sx("+", sx("*", sx("+", sx("*", sx("+", sx("*", at(0), "256"), at(1)), "256"), at(2)), "256"), at(3))), nil
+	case "captured":
+		// captured(T): the one variable of type T that the closure under contract captures - a name for
+		// it that survives the renaming of the enclosing function's locals
+		if len(c.Args) != 1 || env.fr == nil {
+			return nil, fmt.Errorf("captured(T) wants one type and a closure")
+		}
+		t, err := env.resolveType(c.Args[0])
+		if err != nil {
+			return nil, err
+		}
+		var found *Val
+		for _, fv := range env.fr.fn.FreeVars {
+			pt, ok := fv.Type().Underlying().(*types.Pointer)
+			if !ok || !types.Identical(pt.Elem(), t) {
+				continue
+			}
+			if found != nil {
+				return nil, fmt.Errorf("captured(%s): more than one captured variable of that type", types.ExprString(c.Args[0]))
+			}
+			cell, ok := env.fr.vals[fv]
+			if !ok {
+				continue
+			}
+			st := env.cur
+			if st == nil {
+				st = env.fr.st
+			}
+			found = env.fr.capturedVal(fv, cell, st)
+		}
+		if found == nil {
+			return nil, fmt.Errorf("captured(%s): no captured variable of that type", types.ExprString(c.Args[0]))
+		}
+		return found, nil
 	case "typeis":
 		a, err := arg(0)
 		if err != nil {
